@@ -185,6 +185,10 @@ impl Scanner {
                 return self.make_token(TokenType::Illegal, &tok);
             }
             let the_byte = self.input[self.position];
+            // a byte literal may hold a line break
+            if the_byte == '\n' {
+                self.line += 1;
+            }
             // Consume ending quote (')
             self.read_char();
             if self.ch == '\'' {
@@ -197,6 +201,9 @@ impl Scanner {
             }
             // If no immediate ending quote (') was found, return an illegal token
             while self.ch != '\'' && self.ch != '\0' {
+                if self.ch == '\n' {
+                    self.line += 1;
+                }
                 self.read_char();
             }
             if self.ch == '\'' {
@@ -324,12 +331,19 @@ impl Scanner {
             return self.make_token(TokenType::Illegal, &tok);
         }
         let the_char = self.input[self.position].to_string();
+        // a char literal may hold a line break
+        if self.ch == '\n' {
+            self.line += 1;
+        }
         self.read_char();
         if self.ch == '\'' {
             return self.make_token(TokenType::Char, &the_char);
         }
         // If no immediate ending quote (') was found, return an illegal token
         while self.ch != '\'' && self.ch != '\0' {
+            if self.ch == '\n' {
+                self.line += 1;
+            }
             self.read_char();
         }
         if self.ch == '\'' {
